@@ -40,7 +40,7 @@ def _merge(base, over):
 
 
 PROFILES = {
-    "C01": _merge(BASE, {"mut": {"ADD_OP": 50, "ADD_OP_IN": 5, "ADD_SUB": 12, "ADD_LIVE": 4, "APPLY": 6, "COPY": 1, "FLATTEN": 0, "NEW_LIB": 0, "SET_DUR": 6},
+    "C01": _merge(BASE, {"p_subrel": 0.15, "mut": {"ADD_OP": 50, "ADD_OP_IN": 5, "ADD_SUB": 12, "ADD_LIVE": 4, "APPLY": 6, "COPY": 1, "FLATTEN": 0, "NEW_LIB": 0, "SET_DUR": 6},
                          "obs": {"TIMES": 12, "FULL": 12, "PLOT": 2, "OPENQL": 0}, "p_rel": 0.45, "p_regdur": 0.3,
                          "flt": {"SINK_FAIL": 0}, "class": {"mut": 66, "obs": 30, "flt": 4}}),
     "C02": _merge(BASE, {"mut": {"ADD_OP": 50, "ADD_OP_IN": 8, "ADD_SUB": 14, "ADD_LIVE": 4, "APPLY": 3, "FLATTEN": 1, "NEW_LIB": 0, "SET_DUR": 1, "OVR_ENTER": 1, "OVR_LEAVE": 1},
@@ -143,6 +143,7 @@ class Gen:
         self.steps = []
         self.dropped = set()
         self.consumed = {}     # handle of a live-nested circuit -> handle of the circuit it sits in
+        self.in_scenario = False
         self.force = {}
         self.sess_handles = {s: [] for s in range(self.n_sessions)}
         self.decl = set()
@@ -169,8 +170,14 @@ class Gen:
         return [h for s in self.sess_handles.values() for h in s]
 
     def free(self, hs):
-        """handles of circuits that are not live-nested in another circuit"""
-        return [h for h in hs if h not in self.consumed]
+        """handles of circuits that are not live-nested in another circuit (and not constructed with a relation to an
+        operation of another circuit: those are built and then nested there, nothing else)"""
+        return [h for h in hs if h not in self.consumed and h not in self.model.bound]
+
+    def bound_children_of(self, parent):
+        m = self.model
+        return [h for h in self.all_handles() if h in m.bound and h not in self.dropped and h not in self.consumed
+                and m.roots[h].rel is not None and m.roots[h].rel[0] != "MULTI" and m.is_member(m.roots[parent], m.roots[h].rel[1])]
 
     def live_add_ok(self, name, block, st):
         """An operation added later to a block that already sits in a circuit (through the handle add() returned, or
@@ -222,8 +229,17 @@ class Gen:
                 reps = {"fixed": rng.choice([1, 2, 2, 3])}
         else:
             reps = {"fixed": 1}
-        self.emit({"s": s, "op": "NEW", "c": name, "reps": reps})
-        self.model.new(name, reps)
+        st = {"s": s, "op": "NEW", "c": name, "reps": reps}
+        if (rng.random() < self.P.get("p_subrel", 0.04) and not self.in_scenario) or self.force.pop("subrel", False):
+            # a circuit constructed with a relation to an operation of another circuit, to be nested there
+            m = self.model
+            cands = [(h, k) for h in self.free(self.sess_handles[s]) if h in self.decl and h not in self.lib_handles and h not in self.flat and h not in m.bound
+                     for k, e in enumerate(m.entries[h]) if m.is_member(m.roots[h], e) and m.roots[h].rel_known]
+            if cands:
+                h, k = rng.choice(cands)
+                st["rel"] = [rng.choice(REL_TYPES), h, k]
+        self.emit(st)
+        self.model.new(name, reps, st.get("rel"))
         self.sess_handles[s].append(name)
         self.decl.add(name)
         return True
@@ -355,7 +371,7 @@ class Gen:
 
     def mk_add_sub(self, s):
         rng = self.rng
-        parents = self.free([h for h in self.sess_handles[s] if h in self.decl])
+        parents = [h for h in self.sess_handles[s] if h in self.decl and h not in self.consumed]
         if not parents:
             return False
         parent = self.force.pop("parent", None) or rng.choice(parents)
@@ -364,6 +380,9 @@ class Gen:
         else:
             cands = self.free([h for h in self.all_handles() if h != parent])
         cands = [h for h in cands if self.model.roots[h] is not self.model.roots[parent]]
+        bc = self.bound_children_of(parent)
+        if bc and rng.random() < 0.6:
+            cands = bc
         if "child" in self.force:
             cands = [self.force.pop("child")]
         if not cands:
@@ -387,13 +406,13 @@ class Gen:
         """nest the live structure of another circuit through add_operation (no copy): two circuits, one block"""
         rng = self.rng
         m = self.model
-        parents = self.free([h for h in self.sess_handles[s] if h in self.decl and h not in self.lib_handles and h not in self.flat])
+        parents = self.free([h for h in self.sess_handles[s] if h in self.decl and h not in self.lib_handles and h not in self.flat and h not in m.bound])
         if not parents:
             return False
         parent = self.force.pop("parent", None) or rng.choice(parents)
         cands = []
         for h in self.all_handles():
-            if h == parent or h not in self.decl or h in self.lib_handles or h in self.flat or h in self.consumed:
+            if h == parent or h not in self.decl or h in self.lib_handles or h in self.flat or h in self.consumed or h in m.bound:
                 continue
             r = m.roots[h]
             if r is m.roots[parent] or not r.rel_known:
@@ -520,6 +539,7 @@ class Gen:
     def mk_obs(self, s):
         rng = self.rng
         hs = self.all_handles() if rng.random() < 0.35 else self.sess_handles[s]
+        hs = [h for h in hs if h not in self.model.bound]   # (their own times are those inside the other circuit)
         if not hs:
             return False
         name = rng.choice(hs)
@@ -529,7 +549,7 @@ class Gen:
         # bias towards recently created/mutated handles
         elif rng.random() < 0.5:
             for st in reversed(self.steps):
-                if st["op"] in ("ADD_OP", "ADD_SUB", "APPLY", "FLATTEN", "COPY") and st.get("as", st["c"]) not in self.dropped:
+                if st["op"] in ("ADD_OP", "ADD_SUB", "APPLY", "FLATTEN", "COPY") and st.get("as", st["c"]) not in self.dropped and st.get("as", st["c"]) not in self.model.bound:
                     name = st.get("as", st["c"])
                     break
         what = self.force.pop("what", None) or _wchoice(rng, self.P["obs"])
@@ -593,7 +613,7 @@ class Gen:
 
     def mk_sink_observer(self, s):
         rng = self.rng
-        hs = [h for h in self.all_handles() if h in self.decl]
+        hs = [h for h in self.all_handles() if h in self.decl and h not in self.model.bound]
         if not hs:
             return True
         name = rng.choice(hs)
@@ -609,7 +629,7 @@ class Gen:
         if rng.random() < 0.8 and self.n_checks < 12:
             # look again: at the schedule / listing, or once more through the sink that just failed
             what2 = what if rng.random() < 0.4 else rng.choice(["TIMES", "TIMES", "LIST", "ACQ", "DURATION", "FULL"])
-            self.emit({"s": s, "op": "OBS", "what": what2, "c": rng.choice(self.all_handles()) if rng.random() < 0.3 else name, "check": True})
+            self.emit({"s": s, "op": "OBS", "what": what2, "c": rng.choice(hs) if rng.random() < 0.3 else name, "check": True})
             self.n_checks += 1
         return True
 
@@ -933,7 +953,9 @@ class Gen:
             x = rng.random()
             for p_sc, fn in self.SCENARIOS.get(self.pname, []):
                 if x < p_sc:
+                    self.in_scenario = True
                     getattr(self, fn)()
+                    self.in_scenario = False
                     self.force.clear()
                     break
                 x -= p_sc
@@ -951,9 +973,9 @@ class Gen:
             else:
                 self.mk_fault(s)
         # every run ends with a look at something (so that the last mutations are checked)
-        if self.all_handles():
+        if [h for h in self.all_handles() if h not in self.model.bound]:
             s = rng.randrange(self.n_sessions)
-            name = rng.choice(self.all_handles())
+            name = rng.choice([h for h in self.all_handles() if h not in self.model.bound])
             self.emit({"s": s, "op": "OBS", "what": "FULL", "c": name, "check": True})
         while self.ovr_depth > 0:
             self.mk_ovr_leave(0)
